@@ -162,6 +162,8 @@ pub fn abs_instr(i: &Instruction) -> Value {
         Instruction::SwapPhases(x) => {
             json!({"k": "Swap", "text": text, "frame": frame_abs(&x.frame_1), "frame2": frame_abs(&x.frame_2)})
         }
+        // RESET q; a bare RESET depends on the program's used qubits and is not in any alphabet
+        Instruction::Reset(r) if r.qubit.is_some() => json!({"k": "Reset", "text": text, "qubits": [qubit_index(r.qubit.as_ref().unwrap())]}),
         Instruction::Gate(_) => json!({"k": "Gate", "text": text}),
         Instruction::Call(c) => json!({"k": "Call", "text": text, "ext": c.name}),
         Instruction::Label(_) => json!({"k": "Label", "text": text}),
@@ -514,10 +516,13 @@ pub fn quilt_summ(i: &Value, frames: &[Value], wfs: &[Value]) -> Summ {
             let qs = qset(&i["qubits"]);
             if qs.is_empty() { all() } else { any_of(&qs) }
         }
+        "Reset" => exact(&qset(&i["qubits"])),
         _ => BTreeSet::new(),
     };
     let blocked: BTreeSet<u64> = if play && i["blocking"].as_bool().unwrap() {
         any_of(&qset(&i["frame"]["qubits"])).difference(&used).cloned().collect()
+    } else if k == "Reset" {
+        any_of(&qset(&i["qubits"])).difference(&used).cloned().collect()
     } else {
         BTreeSet::new()
     };
@@ -574,14 +579,14 @@ fn some_qubits(r: &mut impl Rng) -> String {
 }
 
 /// one timed instruction (as Quil text) over the frame table
-pub fn random_timed(r: &mut impl Rng, frames: &[Value], with_defwaveform: bool) -> String {
+pub fn random_timed(r: &mut impl Rng, frames: &[Value], wf_names: &[String]) -> String {
     let nb = if r.gen_bool(0.5) { "NONBLOCKING " } else { "" };
     let d = r.gen_range(0..=5);
     let names: Vec<String> = frames.iter().map(|f| s(f, "name")).collect();
     match r.gen_range(0..100) {
         0..=24 => {
             let wf = match r.gen_range(0..10) {
-                0 if with_defwaveform => "w".to_string(),
+                0 | 3 if !wf_names.is_empty() => wf_names.choose(r).unwrap().clone(),
                 1 => format!("erf_square(duration: {d}, pad_left: {}, pad_right: {}, risetime: 1)", r.gen_range(0..3), r.gen_range(0..3)),
                 2 => format!("gaussian(duration: {d}, fwhm: 2, t0: 3)"),
                 _ => format!("flat(duration: {d}, iq: 1)"),
@@ -607,7 +612,7 @@ pub fn random_timed(r: &mut impl Rng, frames: &[Value], with_defwaveform: bool) 
 }
 
 /// random calibration table: gate heads G0..Gk on fixed qubits; later calibrations may call earlier ones
-pub fn random_cals(r: &mut impl Rng, frames: &[Value], n: usize, with_defwaveform: bool) -> Vec<Value> {
+pub fn random_cals(r: &mut impl Rng, frames: &[Value], n: usize, wf_names: &[String]) -> Vec<Value> {
     let mut cals: Vec<Value> = vec![];
     for k in 0..n {
         let len = r.gen_range(0..=3);
@@ -616,7 +621,7 @@ pub fn random_cals(r: &mut impl Rng, frames: &[Value], n: usize, with_defwavefor
             if k > 0 && r.gen_bool(0.25) {
                 body.push(s(&cals[r.gen_range(0..k)], "head"));
             } else {
-                body.push(random_timed(r, frames, with_defwaveform));
+                body.push(random_timed(r, frames, wf_names));
             }
         }
         cals.push(json!({"head": format!("G{k} {}", k % 2), "body": body}));
@@ -637,7 +642,8 @@ pub fn drive(ctx: &Ctx) -> Summary {
         let with_wf = rng.gen_bool(0.5);
         let wfs = if with_wf { vec![json!({"name": "w", "len": 4})] } else { vec![] };
         let ncals = rng.gen_range(1..=3);
-        let cals = if rng.gen_bool(0.6) { random_cals(&mut rng, frames, ncals, with_wf) } else { vec![] };
+        let wf_names: Vec<String> = if with_wf { vec!["w".to_string()] } else { vec![] };
+        let cals = if rng.gen_bool(0.6) { random_cals(&mut rng, frames, ncals, &wf_names) } else { vec![] };
         let len = if h < 2 { 1 } else { rng.gen_range(2..=max_len) };
         let untimed = rng.gen_range(0..12) == 0;
         let mut src = vec![];
@@ -647,7 +653,7 @@ pub fn drive(ctx: &Ctx) -> Summary {
             } else if untimed && rng.gen_bool(0.2) {
                 src.push(["NOP", "RESET 0", "MOVE ro[0] 1", "H 2"].choose(&mut rng).unwrap().to_string());
             } else {
-                src.push(random_timed(&mut rng, frames, with_wf));
+                src.push(random_timed(&mut rng, frames, &wf_names));
             }
         }
         let program = build_program(frames, &wfs, &cals, "", &src);
